@@ -60,6 +60,7 @@ func TestWorker(t *testing.T) {
 	hashes := map[uint64]struct{}{}
 	scheds := map[uint64]struct{}{}
 	states := map[uint64]struct{}{}
+	orders := map[uint64]struct{}{}
 	prog, _ := os.OpenFile(out+".progress", os.O_CREATE|os.O_WRONLY|os.O_TRUNC, 0o644)
 	minBudget := int(envInt("VERIF_MIN_EVALS", 1500))
 	maxSamples := 6
@@ -128,6 +129,11 @@ func TestWorker(t *testing.T) {
 		}
 		if r.SchedHash != 0 && len(scheds) < setCap {
 			scheds[r.SchedHash] = struct{}{}
+		}
+		for _, o := range r.Orders {
+			if len(orders) < setCap {
+				orders[o] = struct{}{}
+			}
 		}
 		for _, s := range r.StateHash {
 			if len(states) < setCap {
@@ -213,6 +219,9 @@ func TestWorker(t *testing.T) {
 	}
 	for h := range states {
 		rep.States = append(rep.States, h)
+	}
+	for h := range orders {
+		rep.Orders = append(rep.Orders, h)
 	}
 	rep.WallS = time.Since(start).Seconds()
 	rep.Done = true
